@@ -18,6 +18,7 @@ BOUNDS = {"quick": "LV(4,3) x 9 dtypes x 2 value patterns x 5 constructors, all 
                    "from/to_numpy_array for n,m<=4 x 9 dtypes; one array of 120 cells (long repr branch); rows as arrays of different dtypes (5 rotations); tuple-shape constructor; transposed / Fortran / strided numpy inputs",
           "thorough": "LV(5,3) u LV(3,5) x 9 dtypes x 3 patterns x 5 constructors; numpy round trip n,m<=5"}
 CTORS = ["flat_lens", "flat_shape", "rows_np", "rows_py_dtype", "flat_shape_tuple"]
+# (only for the long array) row lengths handed over as a narrow unsigned ndarray whose running total does not fit that dtype
 
 
 def shards(tier):
@@ -51,6 +52,8 @@ def cases(shard, tier):
     else:
         yield ["rows", shard["big"], "int64", 0, "flat_lens"]
         yield ["rows", shard["big"], "float64", 1, "rows_np"]
+        yield ["rows", [100, 0, 120, 50, 30], "int64", 0, "flat_lens_u8"]
+        yield ["rows", [100, 0, 120, 50, 30], "int64", 0, "flat_lens_i16"]
 
 
 def _lens_features(acc, lens):
@@ -82,6 +85,10 @@ def _build(ctor, flat, lens, dt):
     rows_np = dsl.split_rows(flat, lens)
     if ctor == "flat_lens":
         return RaggedArray(flat.copy(), list(lens))
+    if ctor == "flat_lens_u8":
+        return RaggedArray(flat.copy(), np.array(lens, dtype=np.uint8))
+    if ctor == "flat_lens_i16":
+        return RaggedArray(flat.copy(), np.array(lens, dtype=np.int16))
     if ctor == "flat_shape":
         return RaggedArray(flat.copy(), RaggedShape(list(lens)))
     if ctor == "flat_shape_tuple":
